@@ -8,6 +8,7 @@
 #include <vector>
 #include <deque>
 #include <map>
+#include <utility>
 #include <cstdio>
 #include <cstdlib>
 #include <cstring>
@@ -222,9 +223,12 @@ struct Any {
     virtual void assign(const Any& src) = 0;
     virtual void probe(Sink& s) = 0;
 };
+// construction IN PLACE from the caller's arguments (no intermediate copy: a member that aliases an argument keeps aliasing it)
+struct InPlace {};
 template <class D, void (*PROBE)(const D&, Sink&)> struct Box : Any {
     D d;
     Box(const D& x) : d(x) {}
+    template <class... A> Box(InPlace, A&&... a) : d(std::forward<A>(a)...) {}
     Any* copy() const { return new Box(d); }                         // D's copy constructor
     void assign(const Any& src) { d = static_cast<const Box&>(src).d; }   // D's operator=
     void probe(Sink& s) { PROBE(d, s); }
@@ -232,6 +236,7 @@ template <class D, void (*PROBE)(const D&, Sink&)> struct Box : Any {
 template <class D, void (*PROBE)(D&, Sink&)> struct BoxM : Any {           // probes that call non-const members
     D d;
     BoxM(const D& x) : d(x) {}
+    template <class... A> BoxM(InPlace, A&&... a) : d(std::forward<A>(a)...) {}
     Any* copy() const { return new BoxM(d); }
     void assign(const Any& src) { d = static_cast<const BoxM&>(src).d; }
     void probe(Sink& s) { PROBE(d, s); }
@@ -248,6 +253,15 @@ template <class F> static void pr_intrns(F& f, Sink& s) { s.part("rns"); probe_i
 template <class F> static void pr_rns(F& f, Sink& s) { s.part("rns"); probe_rns(f, s.o); }
 
 #define RINGBOX(T) Box<T, pr_ring<T> >
+
+// ---- caller-owned arguments (constructor overloads 6 and 7).  The object is built IN PLACE from lvalue arguments owned by the caller
+// (arrays of fields, vectors of coefficients, polynomials, domains, generators, Integers); then the caller OVERWRITES its arguments
+// in place with another parameter set, builds a second object from the recycled arguments, resizes / reassigns and destroys them.  The
+// first object must not notice: the digest of its probe before and after is compared here (text part `args`, expected
+// "independent"), and python compares the probe with the reference of the same construction without recycling.
+static std::map<const Any*, std::string> g_args_note;
+static uint64_t digest(Any* a) { Sink s(0, false); a->probe(s); s.close(); return s.acc; }
+static Any* noted(Any* a, uint64_t before) { g_args_note[a] = digest(a) == before ? "independent" : "CHANGED-WITH-THE-CALLERS-ARGUMENTS"; return a; }
 
 // Construction.  P = parameter set (0..3), V = constructor overload:
 //   V = 0  the usual constructor                                   V = 3  default constructor, then assignment from a temporary
@@ -272,6 +286,8 @@ template <class M, class S> static Any* make_modular(S p, int V) {
     if (V == 3) return dflt_assign<B, M>(M(p));
     if (V == 4) return new B(M((double)p));                            // Source = double
     if (V == 5) { M a(p); M b((typename M::Residu_t)3); b = a; return new B(b); }   // built for another modulus, then assigned
+    if (V == 6) { B* a; uint64_t d; { S arg = p; a = new B(InPlace(), arg); d = digest(a); arg = (p == (S)3 ? (S)7 : (S)3); { M b(arg); (void)b; } arg = (S)5; } return noted(a, d); }
+    if (V == 7) { B* a; uint64_t d; { Integer arg((uint64_t)p); a = new B(InPlace(), arg); d = digest(a); arg = Integer(p == (S)3 ? 7 : 3); { M b(arg); (void)b; } arg = Integer(5); } return noted(a, d); }
     return 0;
 }
 template <class M, class S> static Any* make_ring3(S p, int V) {          // ModularBalanced<T>, Montgomery<T>, Modular<Log16>
@@ -288,6 +304,11 @@ template <class G, void (*PR)(const G&, Sink&), class T> static Any* make_gfq(in
     if (V == 0) return new B(G(p, (ext && e == 1) ? (U)2 : e));
     if (V == 3) return dflt_assign<B, G>(G(p, (ext && e == 1) ? (U)2 : e));
     if (V == 1) return new B(G(p, e == 1 ? (U)2 : e, gf_vec<T>(GF_I[P], 5)));
+    if (V == 6) { B* a; uint64_t d; int P2 = (P + 1) & 3;                      // (P, e, modPoly): the caller recycles its coefficient vector
+        { std::vector<T> I = gf_vec<T>(GF_I[P], 5); a = new B(InPlace(), p, e == 1 ? (U)2 : e, I); d = digest(a);
+          std::vector<T> I2 = gf_vec<T>(GF_I[P2], 5); for (size_t k = 0; k < I.size() && k < I2.size(); ++k) I[k] = I2[k];
+          I = I2; { G b((U)GP[P2], (U)(GE[P2] == 1 ? 2 : GE[P2]), I); (void)b; } I.assign(I.size(), (T)0); I.clear(); }
+        return noted(a, d); }
     return 0;
 }
 template <class T> static Any* make_gfqdom(int P, int V) {
@@ -298,6 +319,12 @@ template <class T> static Any* make_gfqdom(int P, int V) {
     if (V == 4) return new B(G(p, e, gf_vec<int>(GF_I[P], 5), gf_vec<int>(GF_G[P], 3)));             // the same template with another Vector type
     if (V == 5) { std::deque<long> i, g; for (int k = 0; k < 5 && GF_I[P][k] >= 0; ++k) i.push_back(GF_I[P][k]); for (int k = 0; k < 3 && GF_G[P][k] >= 0; ++k) g.push_back(GF_G[P][k]);
                   return new B(G(p, e, i)); }                                                              // 3-argument template, Vector = deque
+    if (V == 7) { B* a; uint64_t d; int P2 = (P + 1) & 3;                      // (P, e, modPoly, genPoly): both vectors recycled
+        { std::vector<T> I = gf_vec<T>(GF_I[P], 5), Gn = gf_vec<T>(GF_G[P], 3); a = new B(InPlace(), p, e, I, Gn); d = digest(a);
+          std::vector<T> I2 = gf_vec<T>(GF_I[P2], 5), G2 = gf_vec<T>(GF_G[P2], 3);
+          for (size_t k = 0; k < I.size() && k < I2.size(); ++k) I[k] = I2[k]; for (size_t k = 0; k < Gn.size() && k < G2.size(); ++k) Gn[k] = G2[k];
+          I = I2; Gn = G2; { G b((U)GP[P2], (U)(GE[P2] == 1 ? 2 : GE[P2]), I, Gn); (void)b; } I.assign(I.size(), (T)0); Gn.clear(); }
+        return noted(a, d); }
     return make_gfq<G, pr_gfq<G>, T>(P, V, false);
 }
 
@@ -325,24 +352,29 @@ static Any* make(const std::string& cls, int P, int V = 0) {
         if (V == 2) return new B(M(Integer((uint64_t)p)));
         if (V == 3) return dflt_assign<B, M>(M(p));
         if (V == 5) { M a(p); M b(5.0); b = a; return new B(b); }
+        if (V == 6) { B* a; uint64_t d; { double arg = p; a = new B(InPlace(), arg); d = digest(a); arg = 1009.0; { M b(arg); (void)b; } arg = 5.0; } return noted(a, d); }
         return 0; }
     if (cls == "ModularExtended<float>") { typedef ModularExtended<float> M; typedef RINGBOX(M) B; float p = (float)(P == 2 ? 2097143 : SMALL[P] == 46337 ? 2039 : SMALL[P]);
         if (V == 0) return new B(M(p));
         if (V == 1) return new B(M((uint64_t)p));
         if (V == 3) return dflt_assign<B, M>(M(p));
         if (V == 5) { M a(p); M b(5.0f); b = a; return new B(b); }
+        if (V == 6) { B* a; uint64_t d; { float arg = p; a = new B(InPlace(), arg); d = digest(a); arg = 1009.0f; { M b(arg); (void)b; } arg = 5.0f; } return noted(a, d); }
         return 0; }
     if (cls == "Modular<Integer>") { typedef Modular<Integer> M; typedef RINGBOX(M) B; Integer p(P < 3 ? Integer(BIGP[P]) : Integer(101));
         if (V == 0 || V == 1) return new B(M(p));
         if (V == 2) return P == 3 ? new B(M((int64_t)101)) : 0;                  // Source = int64_t
         if (V == 3) return dflt_assign<B, M>(M(p));
         if (V == 5) { M a(p); M b(Integer(3)); b = a; return new B(b); }
+        if (V == 6) { B* a; uint64_t d; { Integer arg(p); a = new B(InPlace(), arg); d = digest(a); arg = Integer(BIGP[(P + 1) % 3]); { M b(arg); (void)b; } arg = Integer(5); } return noted(a, d); }
         return 0; }
     if (cls == "Modular<ruint<7>>") { typedef Modular<RecInt::ruint<7> > M; typedef RINGBOX(M) B; RecInt::ruint<7> p; Integer ip(P < 3 ? BIGP[P == 1 ? 2 : P] : "101"); Caster(p, ip);
         if (V == 0 || V == 1) return new B(M(p));
         if (V == 2) return new B(M(ip));                                          // Source = Integer
         if (V == 3) return dflt_assign<B, M>(M(p));
         if (V == 5) { M a(p); M b(RecInt::ruint<7>(3)); b = a; return new B(b); }
+        if (V == 6) { B* a; uint64_t d; { RecInt::ruint<7> arg(p); a = new B(InPlace(), arg); d = digest(a); arg = RecInt::ruint<7>(1009); { M b(arg); (void)b; } arg = RecInt::ruint<7>(5); } return noted(a, d); }
+        if (V == 7) { B* a; uint64_t d; { Integer arg(ip); a = new B(InPlace(), arg); d = digest(a); arg = Integer(1009); { M b(arg); (void)b; } arg = Integer(5); } return noted(a, d); }
         return 0; }
     if (cls == "ModularBalanced<int32_t>") return make_ring3<ModularBalanced<int32_t> >((int32_t)ODD[P], V);
     if (cls == "ModularBalanced<int64_t>") return make_ring3<ModularBalanced<int64_t> >((int64_t)(P == 2 ? 2147483629L : ODD[P]), V);
@@ -353,6 +385,7 @@ static Any* make(const std::string& cls, int P, int V = 0) {
         if (V == 0) return new B(M(p));
         if (V == 3) return dflt_assign<B, M>(M(p));
         if (V == 5) { M a(p); M b(RecInt::ruint<7>(5)); b = a; return new B(b); }
+        if (V == 6) { B* a; uint64_t d; { RecInt::ruint<7> arg(p); a = new B(InPlace(), arg); d = digest(a); arg = RecInt::ruint<7>(1009); { M b(arg); (void)b; } arg = RecInt::ruint<7>(5); } return noted(a, d); }
         return 0; }
     if (cls == "Modular<Log16>") return make_ring3<Modular<Log16> >((Modular<Log16>::Residu_t)L16[P], V);
     if (cls == "GFqDom<int64_t>") return make_gfqdom<int64_t>(P, V);
@@ -371,20 +404,42 @@ static Any* make(const std::string& cls, int P, int V = 0) {
                       for (int k = 1; k < GP[P]; ++k) { X::PolElement t; PD.init(c, Degree(0), k); PD.add(t, ir, c); if (FD.is_irreducible(t)) return new B(X(PD, t)); }
                       return 0; }
         if (V == 3) return dflt_assign<B, X>(X(Bf, ex));
+        int P2 = (P + 1) & 3;
+        if (V == 6) { B* a; uint64_t d; { GFqDom<int64_t> F(Bf); Indeter Y("Y"); a = new B(InPlace(), F, ex, Y); d = digest(a);        // (base field, degree, Indeter)
+                      F = GFqDom<int64_t>((uint64_t)GP[P2], 1); Y = Indeter("Z"); { X b(F, (uint64_t)2, Y); (void)b; } F = GFqDom<int64_t>(); } return noted(a, d); }
+        if (V == 7) { X::Pol_t PD(Bf, Indeter("Y")); X::PolElement ir, x1, c, t; PD.init(ir, Degree((int64_t)ex)); PD.init(x1, Degree(1)); PD.addin(ir, x1);     // (Pol_t, irreducible)
+                      Poly1FactorDom<GFqDom<int64_t>, Dense> FD(Bf, Indeter("Y"));
+                      for (int k = 1; k < GP[P]; ++k) { PD.init(c, Degree(0), k); PD.add(t, ir, c); if (FD.is_irreducible(t)) {
+                          B* a = new B(InPlace(), PD, t); uint64_t d = digest(a);
+                          for (size_t i = 0; i + 1 < t.size(); ++i) t[i] = t[t.size() - 1];                 // the caller overwrites the coefficients of its polynomial in place
+                          GFqDom<int64_t> F2((uint64_t)GP[P2], 1); PD = X::Pol_t(F2, Indeter("Z")); t.resize(1); t.clear();
+                          return noted(a, d); } }
+                      return 0; }
         return 0; }
     if (cls == "Poly1Dom<Modular<double>,Dense>") { typedef Poly1Dom<Modular<double>, Dense> PD; typedef Box<PD, pr_poly<PD> > B; Modular<double> Bf((double)SMALL[P]);
         if (V == 0) return new B(PD(Bf, Indeter(P & 1 ? "Y" : "X")));
         if (V == 3) return dflt_assign<B, PD>(PD(Bf, Indeter(P & 1 ? "Y" : "X")));
+        if (V == 6) { B* a; uint64_t d; { Modular<double> F(Bf); Indeter X(P & 1 ? "Y" : "X"); a = new B(InPlace(), F, X); d = digest(a);
+                      F = Modular<double>((double)SMALL[(P + 1) & 3]); X = Indeter("Z"); { PD b(F, X); (void)b; } F = Modular<double>(2.0); } return noted(a, d); }
         return 0; }
     if (cls == "Poly1Dom<GFqDom<int64_t>,Dense>") { typedef Poly1Dom<GFqDom<int64_t>, Dense> PD; typedef Box<PD, pr_poly<PD> > B;
         if (V == 0) { GFqDom<int64_t> Bf((uint64_t)GP[P], (uint64_t)GE[P]); return new B(PD(Bf, Indeter(P & 1 ? "Y" : "X"))); }
         if (V == 2) { GFqDom<int64_t> Bf((uint64_t)GP[P], (uint64_t)(GE[P] == 1 ? 2 : GE[P]), gf_vec<int64_t>(GF_I[P], 5), gf_vec<int64_t>(GF_G[P], 3)); return new B(PD(Bf, Indeter(P & 1 ? "Y" : "X"))); }
         if (V == 3) { GFqDom<int64_t> Bf((uint64_t)GP[P], (uint64_t)GE[P]); return dflt_assign<B, PD>(PD(Bf, Indeter(P & 1 ? "Y" : "X"))); }
+        if (V == 7) { B* a; uint64_t d; int P2 = (P + 1) & 3;                    // base field with prescribed polynomials, owned by the caller
+                      { GFqDom<int64_t> F((uint64_t)GP[P], (uint64_t)(GE[P] == 1 ? 2 : GE[P]), gf_vec<int64_t>(GF_I[P], 5), gf_vec<int64_t>(GF_G[P], 3)); Indeter X(P & 1 ? "Y" : "X");
+                        a = new B(InPlace(), F, X); d = digest(a);
+                        F = GFqDom<int64_t>((uint64_t)GP[P2], (uint64_t)(GE[P2] == 1 ? 2 : GE[P2]), gf_vec<int64_t>(GF_I[P2], 5), gf_vec<int64_t>(GF_G[P2], 3)); X = Indeter("Z");
+                        { PD b(F, X); (void)b; } F = GFqDom<int64_t>(); } return noted(a, d); }
         return 0; }
     if (cls == "Poly1FactorDom<Modular<double>,Dense>") { typedef Poly1FactorDom<Modular<double>, Dense> PD; typedef Box<PD, pr_fact<PD> > B; Modular<double> Bf((double)SMALL[P]);
         if (V == 0) return new B(PD(Bf, Indeter(P & 1 ? "Y" : "X")));
         if (V == 1) { Poly1Dom<Modular<double>, Dense> Q(Bf, Indeter(P & 1 ? "Y" : "X")); return new B(PD(Q, GivRandom(1234))); }      // (Poly1Dom, generator)
         if (V == 3) return dflt_assign<B, PD>(PD(Bf, Indeter(P & 1 ? "Y" : "X")));
+        if (V == 6) { B* a; uint64_t d; { Modular<double> F(Bf); Indeter X(P & 1 ? "Y" : "X"); GivRandom g(77); a = new B(InPlace(), F, X, g); d = digest(a);
+                      F = Modular<double>((double)SMALL[(P + 1) & 3]); X = Indeter("Z"); g = GivRandom(78); { PD b(F, X, g); (void)b; } F = Modular<double>(2.0); } return noted(a, d); }
+        if (V == 7) { B* a; uint64_t d; { Poly1Dom<Modular<double>, Dense> Q(Bf, Indeter(P & 1 ? "Y" : "X")); GivRandom g(1234); a = new B(InPlace(), Q, g); d = digest(a);      // (Poly1Dom, generator)
+                      Q = Poly1Dom<Modular<double>, Dense>(Modular<double>((double)SMALL[(P + 1) & 3]), Indeter("Z")); g = GivRandom(78); { PD b(Q, g); (void)b; } } return noted(a, d); }
         return 0; }
     if (cls == "Poly1FactorDom<GFqDom<int64_t>,Dense>") { typedef Poly1FactorDom<GFqDom<int64_t>, Dense> PD; typedef Box<PD, pr_fact<PD> > B;
         if (V == 2) { GFqDom<int64_t> Bf((uint64_t)GP[P], (uint64_t)(GE[P] == 1 ? 2 : GE[P]), gf_vec<int64_t>(GF_I[P], 5), gf_vec<int64_t>(GF_G[P], 3)); return new B(PD(Bf, Indeter(P & 1 ? "Y" : "X"))); }
@@ -400,6 +455,9 @@ static Any* make(const std::string& cls, int P, int V = 0) {
         if (V == 0) return new B(R(pr));
         if (V == 1) return new B(R(pl));                                  // template<TT> IntRNSsystem(const Container<TT>&)
         if (V == 3) return dflt_assign<B, R>(R(pr));
+        if (V == 6 || V == 7) { int P2 = (P + 1) & 3; B* a = V == 6 ? new B(InPlace(), pr) : new B(InPlace(), pl); uint64_t d = digest(a);
+            for (int k = 0; k < 5 && PS[P2][k] && (size_t)k < pr.size(); ++k) { pr[(size_t)k] = Integer(PS[P2][k]); pl[(size_t)k] = (int64_t)PS[P2][k]; }      // overwritten in place
+            { R b(pr); R c(pl); (void)b; (void)c; } pr.resize(1); pl.clear(); pr[0] = Integer(1); return noted(a, d); }
         return 0;
     }
     if (cls == "RNSsystem<Integer,Modular<double>>") {
@@ -410,6 +468,13 @@ static Any* make(const std::string& cls, int P, int V = 0) {
         if (V == 0) return new B(R(dm));
         if (V == 1) { R x; x.setPrimes(dm); return new B(x); }           // default constructor + setPrimes
         if (V == 3) return dflt_assign<B, R>(R(dm));
+        if (V == 6 || V == 7) { int P2 = (P + 1) & 3; B* a; uint64_t d;          // the caller's array of fields is overwritten element by element, reused, resized, destroyed
+            { R::domains cd(dm, givWithCopy());
+              if (V == 6) a = new B(InPlace(), cd); else { a = new B(InPlace()); a->d.setPrimes(cd); }
+              d = digest(a);
+              for (int k = 0; k < 5 && PS[P2][k] && (size_t)k < cd.size(); ++k) cd[(size_t)k] = Modular<double>((double)PS[P2][k]);
+              { R b(cd); (void)b.size(); } cd.resize(1); cd[0] = Modular<double>(2.0); cd.allocate(0); }
+            return noted(a, d); }
         return 0;
     }
     return 0;
@@ -462,6 +527,8 @@ static bool mutate(const std::string& cls, Any* a, int P) {
         Any* f = make(cls, P); R& src = static_cast<BoxM<R, pr_rns<R> >*>(f)->d;
         R::domains dm(src.Primes().size()); for (size_t k = 0; k < src.Primes().size(); ++k) dm[k] = src.Primes()[k];
         static_cast<BoxM<R, pr_rns<R> >*>(a)->d.setPrimes(dm);
+        for (size_t k = 0; k < dm.size(); ++k) dm[k] = Modular<double>((double)(k + 2 == 4 ? 5 : k + 2));          // the caller recycles the array it passed to setPrimes
+        dm.resize(1);
         delete f;
         return true;
     }
